@@ -26,7 +26,8 @@ inductive C where
   | vmapB      -- jax.vmap, the site's arguments are batched
   | vmapU      -- jax.vmap, the site's arguments are not batched
   | mvmap      -- modular_vmap
-  | opaque     -- jax.checkpoint / custom_jvp / custom_vjp around the site (rule viii)
+  | opaque     -- jax.checkpoint around the site (rule vii)
+  | customD    -- custom_jvp / custom_vjp whose rule differentiates the wrapped function (rules vii, ix)
   deriving DecidableEq, Repr
 
 def C.compiles : C → Bool
@@ -89,8 +90,17 @@ def hasUnbatchedMap (pl : List C) (inlined : Bool) : Bool :=
   pl.contains .vmapU ||
     (inlined && ((outerOf pl).contains .mvmap || (outerOf pl).contains .vmapB))
 
-/-- calling the placement without `seed` -/
-def outcome (cfg : Cfg) (pl : List C) : Out :=
+/-- (ix) below a `grad`, a custom-derivative construct is where the differentiation happens; without a
+    `grad` above it, it is an opaque construct. A modular_vmap in between stages its function and meets
+    the custom-derivative call as an equation before the outer differentiation does (then rule viii). -/
+def relocate : Bool → List C → List C
+  | _, [] => []
+  | seen, c :: rest =>
+    (if c = .customD then (if seen then .grad else .opaque) else c) ::
+      relocate ((seen || c == .grad) && c != .mvmap) rest
+
+/-- calling a placement without `seed`, custom-derivative constructs already resolved by `relocate` -/
+def outcomeR (cfg : Cfg) (pl : List C) : Out :=
   let effGrad := cfg.gradInlines && hasGrad pl
   let inner := if effGrad then innerOf pl else pl
   if let some o := mvmapOpaque inner then o
@@ -101,8 +111,8 @@ def outcome (cfg : Cfg) (pl : List C) : Out :=
   else if pl.contains .vmapU then (if cfg.vmapUnbatchedSilent then .replicated else .batchError)
   else .fresh
 
-/-- calling `seed(placement)(key, …)` -/
-def seeded (cfg : Cfg) (pl : List C) : Out :=
+/-- calling `seed(placement)(key, …)`, custom-derivative constructs already resolved -/
+def seededR (cfg : Cfg) (pl : List C) : Out :=
   let effGrad := cfg.gradInlines && hasGrad pl
   let inner := if effGrad then innerOf pl else pl
   if let some o := mvmapOpaque inner then o
@@ -111,6 +121,12 @@ def seeded (cfg : Cfg) (pl : List C) : Out :=
   else if !(pl.all (fun c => c.seedInterprets || c = .grad)) then .loweringError
   else if pl.contains .vmapU then (if cfg.vmapUnbatchedSilent then .replicated else .batchError)
   else .keyFunction
+
+/-- calling the placement without `seed` -/
+def outcome (cfg : Cfg) (pl : List C) : Out := outcomeR cfg (relocate false pl)
+
+/-- calling `seed(placement)(key, …)` -/
+def seeded (cfg : Cfg) (pl : List C) : Out := seededR cfg (relocate false pl)
 
 def Out.ok : Out → Bool
   | .fresh | .loweringError | .batchError | .keyFunction => true
